@@ -79,13 +79,25 @@ func buildC14Base(root string, seed int64) (*c14base, error) {
 		return nil, err
 	}
 	t := int64(100)
-	for i := 0; i < 8; i++ {
+	for i := 0; i < 12; i++ {
 		if i != 3 && i != 4 { // equal times straddling segments
 			t += int64(1 + rng.Intn(2))
 		}
+		// record shapes: key + value, no key and no value (2, 9), key only (5), value only (6)
+		k := keyBytes[c14Keys[i%4]]
 		v := valueBytes(i+1, 20+rng.Intn(30))
-		b.x.vals[string(v)] = len(b.x.vals) + 1
-		m := klevdb.Message{Key: keyBytes[c14Keys[i%4]], Value: v, Time: time.UnixMicro(b.t0 + t).UTC()}
+		switch i {
+		case 2, 9:
+			k, v = nil, nil
+		case 5:
+			v = nil
+		case 6:
+			k = nil
+		}
+		if v != nil {
+			b.x.vals[string(v)] = len(b.x.vals) + 1
+		}
+		m := klevdb.Message{Key: k, Value: v, Time: time.UnixMicro(b.t0 + t).UTC()}
 		if _, err := l.Publish([]klevdb.Message{m}); err != nil {
 			return nil, err
 		}
@@ -258,12 +270,19 @@ func (b *c14base) cases(tier string, seed int64) []dmgCase {
 	for si, f := range b.files {
 		n := len(f)
 		// one record of which every bit is flipped (quick); everything (thorough)
-		var full refcodec.Rec
+		// (quick: the middle record and the shortest record of the segment)
+		var full, short refcodec.Rec
 		if len(b.segs[si].Log.Recs) > 0 {
 			full = b.segs[si].Log.Recs[len(b.segs[si].Log.Recs)/2]
+			short = full
+			for _, rc := range b.segs[si].Log.Recs {
+				if rc.Len < short.Len {
+					short = rc
+				}
+			}
 		}
 		for pos := 0; pos < n; pos++ {
-			inFull := int64(pos) >= full.Pos && int64(pos) < full.Pos+full.Len
+			inFull := (int64(pos) >= full.Pos && int64(pos) < full.Pos+full.Len) || (int64(pos) >= short.Pos && int64(pos) < short.Pos+short.Len)
 			for bit := uint(0); bit < 8; bit++ {
 				if !thorough && !inFull && (pos*8+int(bit))%5 != int(seed%5) {
 					continue
